@@ -185,3 +185,6 @@ func VerifHarness_C05_O1b() {
 	verifAssert("later-submissions-pending", len(c.transactionPool) == n)
 	verifReach("end")
 }
+
+// C05/O5 — a transaction accepted before a fast-forward is not lost (= C06/O3).
+func VerifHarness_C05_O5() { VerifHarness_C06_O3() }
